@@ -339,7 +339,7 @@ func (t *T) EvalAt(env Env, mode int, b *Bind) Res {
 				acc = r
 			case t.Name == "sum":
 				acc.V += r.V
-				mag += abs(r.V)
+				mag += u * abs(r.V) // scaled while it is accumulated: the plain sum of magnitudes may overflow
 				acc.E += r.E
 			case t.Name == "max":
 				acc = Res{V: math.Max(acc.V, r.V), E: math.Max(acc.E, r.E)}
@@ -349,7 +349,7 @@ func (t *T) EvalAt(env Env, mode int, b *Bind) Res {
 		}
 		if t.Name == "sum" {
 			// any summation order of n terms: at most (n-1) roundings of partial sums bounded by the magnitude
-			acc.E += float64(t.Hi-t.Lo+1) * u * mag
+			acc.E += float64(t.Hi-t.Lo+1) * mag
 		}
 		acc.Unstable = unstable
 		return acc
@@ -362,11 +362,8 @@ func (t *T) EvalAt(env Env, mode int, b *Bind) Res {
 	case KS:
 		return Res{V: env[t.Name][t.I-1]}
 	case KC:
-		switch t.Name {
-		case "epsLo":
-			return Res{V: EpsLo}
-		case "epsHi":
-			return Res{V: EpsHi}
+		if v, ok := ConstValue(t.Name); ok {
+			return Res{V: v}
 		}
 		panic("term: unknown constant " + t.Name)
 	}
@@ -396,16 +393,33 @@ func (t *T) EvalAt(env Env, mode int, b *Bind) Res {
 
 var debugNaN = os.Getenv("QV_DEBUG_NAN") != ""
 
+// ConstValue: the named real constants of the specification (Val!Cst). Each is the float64 named here exactly.
+func ConstValue(name string) (float64, bool) {
+	switch name {
+	case "epsLo":
+		return EpsLo, true
+	case "epsHi":
+		return EpsHi, true
+	case "tiny250": // far below the library's equality tolerance (1e-240), far above the subnormal range
+		return 1e-250, true
+	case "huge249":
+		return 2.5e249, true
+	case "giga": // a slope / factor of 1e9
+		return 1e9, true
+	}
+	return 0, false
+}
+
 func abs(x float64) float64 { return math.Abs(x) }
 
 func apply(f string, a []Res, mode int) Res {
 	switch f {
 	case "add":
 		v := a[0].V + a[1].V
-		return Res{V: v, E: a[0].E + a[1].E + u*(abs(a[0].V)+abs(a[1].V))}
+		return Res{V: v, E: a[0].E + a[1].E + u*abs(a[0].V) + u*abs(a[1].V)} // (not u*(|a|+|b|): that sum may overflow)
 	case "sub":
 		v := a[0].V - a[1].V
-		return Res{V: v, E: a[0].E + a[1].E + u*(abs(a[0].V)+abs(a[1].V))}
+		return Res{V: v, E: a[0].E + a[1].E + u*abs(a[0].V) + u*abs(a[1].V)} // (not u*(|a|+|b|): that sum may overflow)
 	case "neg":
 		return Res{V: -a[0].V, E: a[0].E}
 	case "mul":
